@@ -43,12 +43,12 @@ static int cmp_long(const void *a, const void *b) { long x = *(const long *) a, 
 /* order-insensitive summary of the recorded event string */
 static void summary(int rc) {
     static long al[MAXEV], fl[MAXEV], fr[MAXEV];
-    int na = 0, nf = 0, nr = 0, i, j, first;
+    int na = 0, nf = 0, nr = 0, npf = 0, i, j, first;
     char *p = evbuf;
     while (*p) {
         char kind = *p++;
         long id;
-        if (*p == 'p') { p++; while (*p == ' ') p++; continue; }    /* pre-existing block: outside the window */
+        if (*p == 'p') { if (kind == 'F') npf++; p++; while (*p == ' ') p++; continue; }    /* pre-existing block: only counted */
         id = strtol(p, &p, 10);
         while (*p == ' ') p++;
         if (kind == 'A') al[na++] = id; else if (kind == 'X') fl[nf++] = id; else if (kind == 'F') fr[nr++] = id;
@@ -67,6 +67,7 @@ static void summary(int rc) {
         if (j == nr) { OUT("%s%ld", first ? "" : ",", al[i]); first = 0; }
     }
     if (first) OUT("-");
+    OUT(" pfrees=%d", npf);
     if (evoverflow) OUT(" overflow");
 }
 
@@ -90,6 +91,13 @@ static void handle(int argc, char **argv) {
         verif_arm(0, atol(argv[pos]));
         ARM(); rc = cif_value_clone(v, &w); DISARM();
         summary(rc);
+        /* "shares no storage … modifying either leaves the other intact": grow the clone and the original when they are lists */
+        if (rc == CIF_OK && w && cif_value_kind(w) == CIF_LIST_KIND) {
+            cif_value_tp *filler = NULL; int i;
+            cif_value_create(CIF_UNK_KIND, &filler);
+            for (i = 0; i < 6; i++) { cif_value_insert_element_at(w, 0, filler); cif_value_insert_element_at(v, 0, filler); }
+            cif_value_free(filler);
+        }
         cif_value_free(w); cif_value_free(v);
     } else if (argc >= 5 && !strcmp(argv[1], "insert")) {
         cif_value_tp *lst = NULL, *e, *filler = NULL;
@@ -104,6 +112,17 @@ static void handle(int argc, char **argv) {
         verif_arm(0, atol(argv[pos]));
         ARM(); rc = cif_value_insert_element_at(lst, 1, e); DISARM();
         summary(rc);
+        /* "objects owned by the caller stay valid": keep using the list after the call, whatever its outcome — six more
+           insertions with memory available, a read of every element, then release (all under ASan) */
+        {
+            size_t n = 0, j;
+            int rc2 = CIF_OK;
+            for (i = 0; i < 6 && rc2 == CIF_OK; i++) rc2 = cif_value_insert_element_at(lst, 0, filler);
+            if (rc2 != CIF_OK) OUT(" later-insert=%d", rc2);
+            if (cif_value_get_element_count(lst, &n) == CIF_OK)
+                for (j = 0; j < n; j++) { cif_value_tp *x = NULL; if (cif_value_get_element_at(lst, j, &x) != CIF_OK || !x) OUT(" unreadable@%zu", j); else (void) cif_value_kind(x); }
+            if (n != (size_t) ((full ? 4 : 1) + (rc == CIF_OK ? 1 : 0) + 6)) OUT(" size=%zu", n);
+        }
         cif_value_free(filler); cif_value_free(e); cif_value_free(lst);
     } else if (argc == 4 && (!strcmp(argv[1], "names") || !strcmp(argv[1], "namesfixed"))) {
         /* cif_loop_get_names on a stored loop with n item names _a0 … (SQLite's own allocations are not wrapped here) */
@@ -127,32 +146,95 @@ static void handle(int argc, char **argv) {
         if (cif) cif_destroy(cif);
         for (i = 0; i < n; i++) free(names[i]);
         free(names);
-    } else if (argc >= 4 && !strcmp(argv[1], "set")) {
-        /* the target is element 1 of [ ? [ 'hi' 1.5(2) ] ? ]: cleaning it releases pre-existing blocks only */
-        cif_value_tp *lst = NULL, *e, *filler = NULL, *old = NULL, *probe = NULL;
-        UChar txt[] = { 'h', 'i', 0 };
-        UChar *num = NULL;
+    } else if (argc >= 4 && !strcmp(argv[1], "deser")) {
+        /* serialise a list value (un-armed), then deserialise the blob onto a fresh value object, as GET_VALUE_PROPS does */
+        cif_value_tp *v, *dest = NULL;
+        buffer_tp *buf = NULL;
+        pos = 2;
+        v = mk(argv, argc, &pos);
+        if (!v || pos != argc - 1 || cif_value_kind(v) != CIF_LIST_KIND) { OUT("bad-op"); cif_value_free(v); return; }
+        if (cif_value_serialize(v, &buf) != CIF_OK || !buf || cif_value_create(CIF_UNK_KIND, &dest) != CIF_OK) { OUT("setup-failed"); cif_value_free(v); return; }
+        verif_arm(0, atol(argv[pos]));
+        ARM(); rc = cif_value_deserialize(buf->for_writing.start, buf->for_writing.limit, dest); DISARM();
+        summary(rc);
+        {
+            char *a = NULL, *b = NULL; size_t sa = 0, sb = 0;
+            FILE *fa = open_memstream(&a, &sa), *fb = open_memstream(&b, &sb);
+            fdump_value(fa, dest); fdump_value(fb, v);       /* dest must be a valid value in any case */
+            fclose(fa); fclose(fb);
+            if (rc == CIF_OK && (!a || !b || strcmp(a, b))) OUT(" !NEWVALUE");
+            free(a); free(b);
+        }
+        free(buf->for_writing.start); free(buf);
+        cif_value_free(dest); cif_value_free(v);
+    } else if (argc >= 4 && !strcmp(argv[1], "copychar")) {
+        cif_value_tp *v;
+        UChar txt[] = { 'n', 'e', 'w', 0 }, *got = NULL;
+        pos = 2;
+        v = mk(argv, argc, &pos);
+        if (!v || pos != argc - 1) { OUT("bad-op"); cif_value_free(v); return; }
+        /* the target is a CLONE of the built value (as in `set`, and as the model builds it): a cloned empty list owns a
+           zero-length element array, a freshly created one does not */
+        { cif_value_tp *c = NULL; if (cif_value_clone(v, &c) != CIF_OK) { OUT("setup-failed"); cif_value_free(v); return; } cif_value_free(v); v = c; }
+        verif_arm(0, atol(argv[pos]));
+        ARM(); rc = cif_value_copy_char(v, txt); DISARM();
+        summary(rc);
+        if (rc == CIF_OK) { if (cif_value_kind(v) != CIF_CHAR_KIND || cif_value_get_text(v, &got) != CIF_OK || !got || u_strcmp(got, txt)) OUT(" !TEXT"); free(got); }
+        else { FILE *f = fopen("/dev/null", "w"); if (f) { fdump_value(f, v); fclose(f); } }    /* still a valid value */
+        cif_value_free(v);
+    } else if (argc == 4 && (!strcmp(argv[1], "packet") || !strcmp(argv[1], "packetfixed"))) {
+        /* cif_packet_create with one name per character of argv[2] ('-' = none): 'n' = a name that is already in normalised
+           form (_a<i>), 'r' = a respelled one (_A<i>: the original spelling is kept in a separate copy).  ASCII names, so
+           cif_normalize makes exactly three requests per name; ICU's own allocations are not wrapped in this executor. */
+        const char *fl = strcmp(argv[2], "-") ? argv[2] : "";
+        int n = (int) strlen(fl), i;
+        cif_packet_tp *pkt = NULL;
+        UChar **names;
+        if (n > 40 || strspn(fl, "nr") != (size_t) n) { OUT("bad-op"); return; }
+        names = (UChar **) calloc(n + 1, sizeof(UChar *));
+        for (i = 0; i < n; i++) { char b[16]; int j; snprintf(b, sizeof b, fl[i] == 'r' ? "_A%d" : "_a%d", i); names[i] = (UChar *) calloc(16, sizeof(UChar)); for (j = 0; b[j]; j++) names[i][j] = (UChar) b[j]; }
+        verif_arm(0, atol(argv[3]));
+        ARM(); rc = cif_packet_create(&pkt, names); DISARM();
+        summary(rc);
+        if (rc == CIF_OK && pkt) {
+            /* the packet must be a usable packet with exactly the requested items under their original spellings */
+            const UChar **got = NULL;
+            if (cif_packet_get_names(pkt, &got) != CIF_OK || !got) OUT(" !PNAMES");
+            else { for (i = 0; got[i]; i++) if (i >= n || u_strcmp(got[i], names[i])) OUT(" !PNAME%d", i); if (i != n) OUT(" !PCOUNT%d", i); free(got); }
+            for (i = 0; i < n; i++) { cif_value_tp *v = NULL; if (cif_packet_get_item(pkt, names[i], &v) != CIF_OK || !v) OUT(" !PITEM%d", i); }
+            cif_packet_free(pkt);
+        } else if (rc == CIF_OK) OUT(" !NOPACKET");
+        for (i = 0; i < n; i++) free(names[i]);
+        free(names);
+    } else if (argc >= 5 && !strcmp(argv[1], "set")) {
+        /* the target is element 1 of [ ? <tshape> ? ]; replacing it releases pre-existing blocks only (counted as pfrees) */
+        cif_value_tp *lst = NULL, *e, *filler = NULL, *old, *probe = NULL;
         size_t n = 99;
         int i;
         pos = 2;
-        e = mk(argv, argc, &pos);
-        if (!e || pos != argc - 1) { OUT("bad-op"); cif_value_free(e); return; }
+        old = mk(argv, argc, &pos);
+        e = old ? mk(argv, argc, &pos) : NULL;
+        if (!old || !e || pos != argc - 1) { OUT("bad-op"); cif_value_free(e); cif_value_free(old); return; }
         cif_value_create(CIF_LIST_KIND, &lst);
         cif_value_create(CIF_UNK_KIND, &filler);
-        cif_value_create(CIF_LIST_KIND, &old);
-        cif_value_copy_char(filler, txt); cif_value_insert_element_at(old, 0, filler);
-        unhex("0031002e0035002800320029", &num, NULL);
-        if (cif_value_parse_numb(filler, num) != CIF_OK) free(num);
-        cif_value_insert_element_at(old, 1, filler);
-        cif_value_clean(filler);
         for (i = 0; i < 3; i++) cif_value_insert_element_at(lst, 0, i == 1 ? old : filler);
         verif_arm(0, atol(argv[pos]));
         ARM(); rc = cif_value_set_element_at(lst, 1, e); DISARM();
         summary(rc);
-        /* the list and its (possibly half-replaced) element must still be usable and releasable */
+        /* the list and its element must still be usable and releasable ("objects owned by the caller stay valid"); on
+           success the element equals the source */
         if (cif_value_get_element_count(lst, &n) != CIF_OK || n != 3) OUT(" !COUNT");
         if (cif_value_get_element_at(lst, 1, &probe) != CIF_OK || !probe) OUT(" !ELEM");
-        else if (rc == CIF_OK && cif_value_kind(probe) != cif_value_kind(e)) OUT(" !KIND");
+        else {
+            char *a = NULL, *b = NULL; size_t sa = 0, sb = 0;
+            FILE *fa = open_memstream(&a, &sa), *fb = open_memstream(&b, &sb);
+            /* on failure the element only has to be a valid value (the dump walks all of it under ASan); that the
+               repaired code leaves it untouched is observed as pfrees=0 and compared with the model */
+            fdump_value(fa, probe); fdump_value(fb, e);
+            fclose(fa); fclose(fb);
+            if (rc == CIF_OK && (!a || !b || strcmp(a, b))) OUT(" !NEWVALUE");
+            free(a); free(b);
+        }
         cif_value_free(old); cif_value_free(filler); cif_value_free(e); cif_value_free(lst);
     } else {
         OUT("bad-op");
